@@ -175,6 +175,11 @@ class Runner(object):
             self.disagree(step, 'interpretable behaviour', list(w.problems))
             w.problems = []
             return False
+        if not self.compare and self.agree and step[0] == 'pollSelect':
+            # a prefix that is replayed without comparison (exhaustive stream) must still follow the model's
+            # choice among ORDER BY ties, or the last, compared step sees candidates in another order
+            # (uuid order of the real rows is arbitrary: flaky `poll` disagreements on equal execute_at)
+            self._ties(step[1], self.model_state())
         if self.compare and self.agree:
             m = self.model_state()
             self.model = m
